@@ -387,6 +387,17 @@ class Ctx:
         try:
             yield
         except Exception as e:  # noqa
+            tb = e.__traceback__
+            while tb is not None and tb.tb_next is not None:
+                tb = tb.tb_next
+            raised_in = tb.tb_frame.f_code.co_filename if tb is not None else ""
+            if isinstance(e, TypeError) and os.sep + "vcheck" + os.sep in raised_in and \
+                    re.search(r"missing \d+ required|takes (from )?\d+ (to \d+ )?positional|unexpected keyword argument|got multiple values", str(e)):
+                # raised by the harness's own call expression, not inside the library: the function's signature is no longer the one
+                # the harness calls it with.  That breaks the harness (a tie), it is not an input on which the property fails.
+                self.violation("tie", "the harness can no longer call %s the way it does (%s): what this stream covered is not shown any more" % (what, e),
+                               {"correspondence": "harness:call-signature:" + what, "traceback": traceback.format_exc()[-1500:]}, no_input=True)
+                return
             self.violation("exception", "%s raised %s: %s" % (what, type(e).__name__, e),
                            {"case": case, "traceback": traceback.format_exc()[-2000:]})
 
